@@ -3,7 +3,7 @@
 using namespace c10;
 namespace {
 struct Block { unsigned p; long a; };
-const unsigned kExhPrimes[] = {2, 3, 5, 7, 11, 13, 17, 19, 23, 29, 31};
+const unsigned kExhPrimes[] = {2, 3, 5, 7, 11, 13, 17, 19, 23, 29, 31, 37, 41, 43, 47, 53, 59, 61};
 std::vector<Block> make_table() {
   std::vector<Block> t;
   for (unsigned p : kExhPrimes) for (long a = -3L * p; a <= 3L * p; ++a) t.push_back({p, a});
@@ -18,7 +18,7 @@ void exh_case(vh::Case& c) {
   std::vector<i128> as = {(i128)b.a}, bs = window(b.p);
   switch (b.p) {
 #define C10_P(p) case p: zpc_block<p>(c, desc, as, bs, 0, 0); break;
-    C10_P(2) C10_P(3) C10_P(5) C10_P(7) C10_P(11) C10_P(13) C10_P(17) C10_P(19) C10_P(23) C10_P(29) C10_P(31)
+    C10_P(2) C10_P(3) C10_P(5) C10_P(7) C10_P(11) C10_P(13) C10_P(17) C10_P(19) C10_P(23) C10_P(29) C10_P(31) C10_P(37) C10_P(41) C10_P(43) C10_P(47) C10_P(53) C10_P(59) C10_P(61)
 #undef C10_P
   }
 }
